@@ -151,7 +151,10 @@ def feed(chan, chunks):
         if t.disconnecting:
             break
         if c:
-            p.dataReceived(c)
+            try:
+                p.dataReceived(c)
+            except Exception as e:  # noqa  (Twisted would drop the connection)
+                return ('raised', type(e).__name__, repr(got)), got, t
     return chan.state(p, t, got, pre), got, t
 
 
@@ -205,6 +208,12 @@ def handshake_bytes(variant):
         echo = sign(CHALLENGE[0] + b'x')
         second = struct.pack('>I', 4) + struct.pack('>I', len(echo)) + echo
         ok = False
+    elif variant.startswith('partial-echo'):
+        part = {'partial-echo-empty': b'', 'partial-echo-blank': b'  ', 'partial-echo-prefix': CHALLENGE[0][:12],
+                'partial-echo-first-line': CHALLENGE[0].split(b'\n')[0], 'partial-echo-colon': b':'}[variant]
+        echo = sign(part)
+        second = struct.pack('>I', 4) + struct.pack('>I', len(echo)) + echo
+        ok = False
     elif variant == 'short-length':
         # length prefix shorter than the signed block: the rest is garbage
         first = struct.pack('>I', 4) + struct.pack('>I', len(ident) - 3) + ident
@@ -213,7 +222,8 @@ def handshake_bytes(variant):
 
 
 VARIANTS = ['valid', 'bad-first-word', 'bad-ident-signature', 'bad-second-word',
-            'bad-echo-signature', 'wrong-echo', 'short-length']
+            'bad-echo-signature', 'wrong-echo', 'short-length', 'partial-echo-empty', 'partial-echo-blank',
+            'partial-echo-prefix', 'partial-echo-first-line', 'partial-echo-colon']
 
 
 def streams(chan, tier):
@@ -257,7 +267,8 @@ def induction(args):
         if shake:
             hs_len = len(handshake_bytes(label.split(':')[1].split('+')[0])[0])
             for j in range(0, hs_len):
-                if S[j][0] == 'open' and S[j][4] != '[]' or S[j][0] == 'closed' and S[j][1] != '[]':
+                if S[j][0] == 'open' and S[j][4] != '[]' or S[j][0] == 'closed' and S[j][1] != '[]' \
+                        or S[j][0] == 'raised' and S[j][2] != '[]':
                     ctx.violation(f'C14/delivered-before-handshake-complete/{feat}',
                                   f'{label}: after {j} of {hs_len} handshake bytes the application got data',
                                   {'chan': cname, 'shake': shake, 'label': label, 'cut': [j]})
